@@ -24,10 +24,36 @@ RULES = {
                        {"s": 0, "op": "solution", "e": "x - 1", "v": 4, "extra": []}, {"s": 0, "op": "batch_eval", "es": ["x", "y"], "n": 5, "extra": ["SLT(y, 0)"]}],
     "compound-definition-after-query": [A("y == 6"), E("x + ZeroExt(1, y)", 3), A("x + ZeroExt(1, y) == 9"), E("x", 20),
                                         {"s": 0, "op": "max", "e": "x", "signed": False, "extra": []}, {"s": 0, "op": "solution", "e": "x", "v": 4, "extra": []}],
+    # the child of a branch learns a narrower bound; the parent rebuilds what it remembers and is asked (exactly and approximately)
+    "child-bound-then-parent-rebuilds": [A("ULE(x, 11)"), A("UGE(x, 3)"), {"s": 0, "op": "branch"}, A("ULT(x, 5)", 1), E("x", 20, 1), {"s": 0, "op": "downsize"},
+                                         E("x", 20, 0), {"s": 0, "op": "eval", "e": "x", "n": 64, "extra": [], "approx": True},
+                                         {"s": 0, "op": "max", "e": "x", "signed": False, "extra": [], "approx": True},
+                                         {"s": 0, "op": "solution", "e": "x", "v": 9, "extra": [], "approx": True}, {"s": 0, "op": "pickle"},
+                                         {"s": 0, "op": "satisfiable", "extra": ["x == 9"], "approx": True}, {"s": 0, "op": "branch"},
+                                         {"s": 2, "op": "min", "e": "x + 1", "signed": False, "extra": [], "approx": True}],
     "branch-replacements": [A("x == 5"), {"s": 0, "op": "branch"}, A("ZeroExt(1, y) == x + 1", 1), E("y", 20, 1), E("y", 3, 0), A("y == 2", 0), E("x", 2, 0)],
     # witness of the open finding C13-replaced-constant-on-unsat (replayed on every run)
     "constant-on-unsat": [A("x != 5"), A("x == 5"), E("x", 20), {"s": 0, "op": "min", "e": "x", "signed": False, "extra": []},
                           {"s": 0, "op": "max", "e": "x", "signed": False, "extra": []}, {"s": 0, "op": "batch_eval", "es": ["x", "x"], "n": 2, "extra": []}],
+}
+FA = lambda c, s=0: {"s": s, "op": "add", "cs": [c]}  # noqa: E731
+FE = lambda e, n=4, s=0: {"s": s, "op": "eval", "e": e, "n": n, "extra": []}  # noqa: E731
+FSOL = lambda e, v, s=0: {"s": s, "op": "solution", "e": e, "v": v, "extra": []}  # noqa: E731
+FOPT = lambda op, e, s=0: {"s": s, "op": op, "e": e, "signed": False, "extra": []}  # noqa: E731
+FBITS = "fpToIEEEBV(f)"
+# floating point: an equality pins a variable only up to IEEE equality (+0.0 == -0.0; NaN equals nothing); the queries tell the
+# values apart by their bit patterns
+FLOAT_RULES = {
+    "eq-plus-zero": [FA("fpEQ(f, FPV(0.0))"), FE(FBITS), FSOL(FBITS, 1 << 63), {"s": 0, "op": "satisfiable", "extra": ["fpToIEEEBV(f) == 0x8000000000000000"]},
+                     FOPT("max", FBITS), FOPT("min", FBITS), FE("Bits(fpToIEEEBV(f), 63, 63)")],
+    "eq-minus-zero": [FA("f == FPV(-0.0)"), FSOL(FBITS, 0), FE(FBITS), FOPT("min", FBITS), {"s": 0, "op": "is_true", "e": "Bits(fpToIEEEBV(f), 63, 63) == 1", "extra": []}],
+    "eq-constant-left": [FA("fpEQ(FPV(-0.0), g)"), FE("fpToIEEEBV(g)"), FE("fpToIEEEBV(fpAbs(g))"), FSOL("Bits(fpToIEEEBV(g), 63, 63)", 0)],
+    "eq-zero-then-branch": [FA("fpEQ(f, FPV(0.0))"), {"s": 0, "op": "branch"}, FA("fpToIEEEBV(f) != 0", 1), {"s": 1, "op": "satisfiable", "extra": []}, FE(FBITS, 4, 1),
+                            FE(FBITS, 4, 0)],
+    "eq-other-constants": [FA("fpEQ(f, FPV(2.5))"), FE(FBITS), FA("g == FPV(1.0)"), FE("fpToIEEEBV(g)"), FSOL("fpToIEEEBV(g)", 0x3ff0000000000000)],
+    "self-equality-excludes-nan": [FA("fpEQ(f, f)"), {"s": 0, "op": "satisfiable", "extra": ["fpIsNaN(f)"]}, FSOL("If(fpIsNaN(f), BVV(1, 1), BVV(0, 1))", 1),
+                                   FA("fpEQ(f, g)"), FSOL("If(fpEQ(f, g), fpToIEEEBV(f), fpToIEEEBV(g))", 1 << 63)],
+    "two-variables-equal": [FA("fpEQ(f, g)"), FA("fpToIEEEBV(f) == 0"), FE("fpToIEEEBV(g)"), FSOL("fpToIEEEBV(g)", 1 << 63), FOPT("max", "fpToIEEEBV(g)")],
 }
 SIMPLE_C = ["ULE(x, 11)", "UGE(x, 3)", "x == 5", "x != 5", "ULT(y, 6)", "UGE(y, 2)", "y == 6", "ULE(z, 4)", "UGT(z, 1)", "ULT(x, 3)", "UGE(x, 8)"]
 SIMPLE_E = ["x", "y", "z", "x + 1", "y + 2"]
@@ -61,6 +87,26 @@ def jobs_exact(ctx, mult=1):
             # a fifth of the adds contradict syntactically what is held, often inside a multi-constraint add()
             jobs.append({"cls": cls, "cfg": {"track": False, "reuse": i % 3 == 0}, "len": lens[i % len(lens)],
                          "gen": {"symv": 0.35, "contra": 0.2} if i % 2 else {}})
+        # trees: one side of a branch learns more about a variable (constraints; SolverReplacement also user-level replacements of
+        # a variable nothing mentions: read as `v == c`; with invalidate_cache=False that solver is no longer judged), the other
+        # sides rebuild what they remember (downsize / pickle / simplify / unrelated add) and are asked everything about it
+        rp = {"repl": 0.5} if cls.startswith("SolverReplacement") else {}
+        for i in range(ctx.pick(16, 120) * mult):
+            jobs.append({"cls": cls, "cfg": {"track": False, "reuse": i % 3 == 0}, "len": ctx.pick(4, 16),
+                         "gen": {"shape": "branch-rebuild", "prefix_args": rp, "symv": 0.35}})
+    return jobs
+
+
+APPROX_W = {"add": 30, "satisfiable": 8, "eval": 16, "batch_eval": 4, "min": 10, "max": 10, "solution": 8, "branch": 5, "downsize": 4, "pickle": 2}
+
+
+def jobs_float(ctx, mult=1):
+    jobs = []
+    for cls in ("SolverReplacement", "SolverReplacement:noauto", "SolverHybrid"):
+        for name, h in FLOAT_RULES.items():
+            jobs.append({"cls": cls, "cfg": {"track": False, "reuse": False}, "float": True, "hist": [dict(d) for d in h]})
+        for i in range(ctx.pick(24, 200) * mult):
+            jobs.append({"cls": cls, "cfg": {"track": False, "reuse": i % 3 == 0}, "float": True, "len": ctx.pick([5, 8], [8, 14])[i % 2]})
     return jobs
 
 
@@ -76,7 +122,12 @@ def run(ctx):
                        "n = 64 >= 2^bits so that a short answer claims completeness; the same three with split / merge / combine / blank_copy in the history "
                        "(half of them opening with a syntactic contradiction next to independent constraints, one question, then the structural "
                        "call; the solvers handed out are asked); histories with add_replacement(variable, constant) on SolverReplacement "
-                       "run twice side by side, with and without their downsize() calls, answers compared; non-trivial = >= 3 calls")
+                       "run twice side by side, with and without their downsize() calls, answers compared; exact and approximate: trees in which ONE "
+                       "side of a branch learns more about a variable (constraints, user-level replacements - with invalidate_cache=False that solver "
+                       "is not judged) and the OTHER sides rebuild what they remember (downsize, pickle, simplify, unrelated add) and are asked; "
+                       "floating point (exact classes): histories over two double variables - IEEE equalities with +-0.0, orderings, NaN / inf "
+                       "classes, pins of the bit pattern; queries about bit patterns -, judged by brute force over candidate values with Python "
+                       "floats (lower bounds) and against a plain Solver run side by side; non-trivial = >= 3 calls")
     ctx.prove("ClaripyProofs.Props.C13", THEOREMS, driver_exe="driver_solver")
     workers = ctx.pick(4, 6)
     m = SC.run_jobs(ctx, jobs_exact(ctx), workers, corr=False, chunk_size=ctx.pick(12, 25))
@@ -93,9 +144,16 @@ def run(ctx):
     jobs = []
     for cls in ("SolverHybrid", "SolverVSA"):
         for _ in range(ctx.pick(40, 300)):
-            h = L.gen_history(ctx.rng, ctx.pick(12, 30), calpha=SIMPLE_C, ealpha=SIMPLE_E, balpha=SIMPLE_C,
-                              weights={"add": 30, "satisfiable": 8, "eval": 16, "batch_eval": 4, "min": 10, "max": 10, "solution": 8, "branch": 4})
+            h = L.gen_history(ctx.rng, ctx.pick(12, 30), calpha=SIMPLE_C, ealpha=SIMPLE_E, balpha=SIMPLE_C, weights=APPROX_W)
             jobs.append({"cls": cls, "cfg": {"track": False, "reuse": False}, "hist": approximate(h, ctx.rng, 1.0 if cls == "SolverVSA" else 0.8)})
+    # trees of approximate solvers: range constraints on v, branch (nested), ONE side narrows v further, the OTHER sides rebuild what
+    # they remember (downsize, pickle round trip, simplify, an unrelated add) and are asked everything about v approximately: the
+    # bounds an approximate frontend learnt on one side must not narrow the answers of another
+    for cls in ("SolverHybrid", "SolverVSA", "SolverHybrid:stub"):
+        for _ in range(ctx.pick(30, 200)):
+            pre = L.prefix_branch_rebuild(ctx.rng, calpha=SIMPLE_C, ealpha=SIMPLE_E)
+            h = L.gen_history(ctx.rng, ctx.pick(4, 12), calpha=SIMPLE_C, ealpha=SIMPLE_E, balpha=SIMPLE_C, weights=APPROX_W, prefix=pre)
+            jobs.append({"cls": cls, "cfg": {"track": False, "reuse": False}, "hist": approximate(h, ctx.rng, 1.0 if cls == "SolverVSA" else 0.85)})
     m3 = SC.run_jobs(ctx, jobs, workers, corr=False, chunk_size=ctx.pick(12, 25))
     SC.merge_cov(ctx, m3, "approximate(real VSA side)")
     # approximate answers of solvers that split / merge (no common ancestor) / combine / blank_copy HAND OUT, in particular
@@ -126,10 +184,23 @@ def run(ctx):
         else:
             fails.append(f)
     ctx.cov["vsa_side_exclusions"] = len(vsa_fails)
-    if ctx.broken and not fails:
-        m4 = SC.run_jobs(ctx, jobs_exact(ctx, mult=3), workers, corr=False, chunk_size=30)
+    # floats: the exact classes on histories over two double variables (candidate brute force with Python floats; a plain Solver
+    # run side by side for exactness)
+    m6 = SC.run_jobs(ctx, jobs_float(ctx), workers, corr=False, chunk_size=ctx.pick(6, 12))
+    SC.merge_cov(ctx, m6, "exact(floating point)")
+    float_fails = list(m6["fails"])
+    if ctx.broken and not fails and not float_fails:
+        m4 = SC.run_jobs(ctx, jobs_exact(ctx, mult=3) + jobs_float(ctx, mult=2), workers, corr=False, chunk_size=30)
         SC.merge_cov(ctx, m4, "failing-input-search")
-        fails += m4["fails"]
+        fails += [f for f in m4["fails"] if not f.get("float")]
+        float_fails += [f for f in m4["fails"] if f.get("float")]
+    seen_f, pick_f = set(), []
+    for f in float_fails:
+        kd = (f["cls"], f["hist"][f["fails"][0][0]]["op"], f["fails"][0][1])
+        if kd not in seen_f:
+            seen_f.add(kd)
+            pick_f.append(f)
+    SC.report_float_failures(ctx, "C13", pick_f)
     # user-level replacements (add_replacement of a variable no constraint mentions): no brute-force reading, but
     # downsize() must not change any answer — two runs side by side, with and without the downsize calls
     uni = L.Universe()
